@@ -18,6 +18,7 @@ structure CSt where
   loopStack : List Nat := []  -- saved loop counts of enclosing functions
   isModule  : Bool := false
   inputs    : List String := []
+  shadowed  : List String := []   -- builtin names re-declared at top level
 
 abbrev CM := StateT CSt (Except String)
 
@@ -130,8 +131,14 @@ mutual
         if tok == "Define" && nsel > 0 then cerr "operator ':=' not allowed with selector"
         let isFunc := match r with | .func .. => true | _ => false
         let res ← resolve name
+        -- at top level a builtin function lives in the root table without being declared there: it may be
+        -- shadowed by `:=` as in any other scope (repaired O26)
+        let st0 ← get
+        let stillBuiltin := builtinNames.contains name && !st0.inputs.contains name && !st0.shadowed.contains name
+        let shadowsBuiltin := tok == "Define" && st0.tabs.length == 1 && stillBuiltin
+        if shadowsBuiltin then modify fun s => { s with shadowed := name :: s.shadowed }
         if tok == "Define" then
-          if res == some 0 then cerr s!"'{name}' redeclared in this block"
+          if res == some 0 && !shadowsBuiltin then cerr s!"'{name}' redeclared in this block"
           if isFunc then define name
         else
           if res.isNone then cerr s!"unresolved reference '{name}'"
@@ -139,7 +146,7 @@ mutual
         checkExpr d r
         if tok == "Define" && !isFunc then define name
         checkExprs d (lhsSelectors l).reverse
-        if tok != "Define" && builtinNames.contains name && !(← get).inputs.contains name then
+        if tok != "Define" && stillBuiltin then
           -- assignment to a name that still denotes the builtin function (found in the root table)
           match ← resolve name with
           | some k => if k + 1 == (← get).tabs.length then cerr "invalid assignment variable scope: BUILTIN" else pure ()
